@@ -581,7 +581,7 @@ theorem fvC_step (h : HooksG) (inner : Inner) (ic : InnerCost) (nc : NvarCost) (
       subst hcl
       have htl : (data.take (rd (List.take 56 data) 32 8)).length = rd (List.take 56 data) 32 8 := by simp; omega
       have hdo : align8G (if (decide (rd (List.take 56 data) 52 2 ≠ 0 ∧ rd (List.take 56 data) 32 8 ≥ 20 ∧
-            rd (List.take 56 data) 52 2 < rd (List.take 56 data) 32 8 - 20)) = true
+            rd (List.take 56 data) 52 2 ≤ rd (List.take 56 data) 32 8 - 20)) = true
           then rd (List.take 56 data) 52 2 + ehs else rd (List.take 56 data) 48 2) < 2 ^ 63 := by
         split
         · have := align8G_le (rd (List.take 56 data) 52 2 + ehs) (by omega); omega
